@@ -29,7 +29,7 @@ ASSUMPTIONS = ['the lookup and graph clauses are pure functions of their input a
                'flows per class) are the simulation targets',
                'Splitter copies are shallow: only scalar header fields are required to be independent',
                'flow ids are non-negative']
-PROBES = ['hub_listener_without_element_id', 'first_output_stamps_synchronously', 'outputs_added_after_construction', 'table_replaced', 'split_packet_with_headers', 'sub_demux', 'sub_hub', 'sub_split', 'sub_fattree', 'empty_table', 'unknown_flow_to_default', 'unknown_flow_nowhere',
+PROBES = ['end_devices_registered_after_construction', 'hub_listener_without_element_id', 'first_output_stamps_synchronously', 'outputs_added_after_construction', 'table_replaced', 'split_packet_with_headers', 'sub_demux', 'sub_hub', 'sub_split', 'sub_fattree', 'empty_table', 'unknown_flow_to_default', 'unknown_flow_nowhere',
           'end_device_hit', 'hub_through_wires', 'hub_add_endpoint', 'two_hubs', 'hub_nested_reply', 'fattree_decoy', 'fattree_k2', 'fattree_k4', 'fattree_k6', 'fattree_tcp',
           'fattree_many_to_one', 'server_WFQ', 'server_DRR', 'server_SP', 'server_VirtualClock', 'ack_class_delivered']
 
@@ -52,6 +52,8 @@ def gen(rng, tier):
                 'server': rng.choice(['WFQ', 'DRR', 'SP', 'VirtualClock']), 'buffer': rng.choice([4, 64])}
         if kind == 'FlowDemux' and nouts >= 1 and rng.random() < 0.3:
             case['late_outs'] = rng.randrange(nouts)
+        if kind == 'FIBDemux' and rng.random() < 0.3:
+            case['late_ends'] = True
         if kind in ('FIBDemux', 'FairSwitch') and rng.random() < 0.35:
             # the table is replaced while traffic flows: routes appear, move and disappear
             case['fib2'] = [rng.randrange(len(flows) + 1), [[f, rng.randint(0, max(0, nouts))] for f in range(8) if rng.random() < 0.6]]
@@ -114,7 +116,15 @@ def run_demux(w, case):
             d = FlowDemux(outs, dflt)
         entry = d
     elif kind == 'FIBDemux':
-        d = FIBDemux(outs=outs, ends=dict(ends), fib=fib, default_out=dflt)
+        if case.get('late_ends'):
+            # the end-device map handed to the constructor is filled in afterwards (hosts attach later), exactly as
+            # the forwarding table and the output list may be
+            mine = {}
+            d = FIBDemux(outs=outs, ends=mine, fib=fib, default_out=dflt)
+            mine.update(ends)
+            stats['end_devices_registered_after_construction'] = 1
+        else:
+            d = FIBDemux(outs=outs, ends=dict(ends), fib=fib, default_out=dflt)
         entry = d
     elif kind == 'SimpleSwitch':
         sw = SimplePacketSwitch(env, nouts, 1 << 20, case.get('buffer', 64), element_id='sw')
